@@ -434,6 +434,23 @@ def angles(rep, prog):
     if len(blocks) != 1:
         raise AnalysisBroken("regularize_face_angles: expected one force block")
     blk, calls = blocks[0]
+    # the regularisation is proportional to angle_regularization_factor_: it may be skipped for a factor of exactly zero only
+    from ..model import facts_at
+    fi_ = prog.index(fn)
+    n_f = 0
+    for atom, truth in facts_at(fn, fi_, calls[0]):
+        if "angle_regularization_factor_" not in render(atom):
+            continue
+        n_f += 1
+        a = strip(atom)
+        exact = a.get("k") == "BinaryOperator" and a.get("op") in ("==", "!=") and any(strip(c_).get("k") in ("FloatingLiteral", "IntegerLiteral") and float(strip(c_).get("v", "1")) == 0.0 for c_ in a["c"]) and ((a["op"] == "!=") == truth)
+        if exact:
+            rep.ok("C02.force-coverage", prog, fn, atom, "angle regularisation: skipped only for a factor of exactly zero (the force is proportional to the factor)")
+        else:
+            rep.violation("C02.force-coverage", prog, fn, atom, "angle regularisation switched off for a range of the factor",
+                          "cell::regularize_face_angles applies its forces only when %s'%s': the force is proportional to angle_regularization_factor_, so it vanishes for a factor of exactly zero only - every other value the test excludes (the shipped parameter files use factors of 1e-16 and below) is read from the file and silently has no effect" % ("" if truth else "not ", short(atom, 70)))
+    if n_f == 0:
+        rep.ok("C02.force-coverage", prog, fn, calls[0], "angle regularisation: no condition on angle_regularization_factor_ around the force block")
     # bindings of the three calls
     binding = {}
     for n in walk(fn["body"]):
